@@ -1,11 +1,11 @@
 //! Everything that touches linfa: build the dataset, fit, predict, and copy the public tree
 //! (`root_node`, `children`, `split`, `prediction`, `depth`, `is_leaf`) into plain data.
 
-use crate::case::{Case, LabelKind, WEIGHTS};
+use crate::case::{Case, LabelKind, Layout, WEIGHTS};
 use linfa::prelude::*;
 use linfa::{Float, Label};
 use linfa_trees::{DecisionTree, SplitQuality, TreeNode};
-use ndarray::{Array1, Array2};
+use ndarray::{s, Array1, Array2, ArrayBase, ArrayView2, Data, Ix2, ShapeBuilder};
 use vengine::Obs;
 
 /// label id reported when a label is not one of the case's class labels
@@ -83,6 +83,51 @@ fn extract<F: Float, L: Label>(root: &TreeNode<F, L>, id_of: &dyn Fn(&L) -> i16)
     (nodes, truncated)
 }
 
+/// A records array in a chosen memory layout. `buf` owns the storage; `view()` is the logical n x p matrix.
+struct Backing<F> {
+    buf: Array2<F>,
+    layout: Layout,
+}
+
+impl<F: Float> Backing<F> {
+    fn new(rows: &[Vec<f64>], n: usize, p: usize, layout: Layout, to_f: &dyn Fn(f64) -> F) -> Self {
+        let at = |i: usize, j: usize| to_f(rows[i][j]);
+        let junk = |i: usize, j: usize| to_f(1.0e6 + (7 * i + 3 * j) as f64);
+        let buf = match layout {
+            Layout::RowMajor => Array2::from_shape_fn((n, p), |(i, j)| at(i, j)),
+            Layout::ColMajor => Array2::from_shape_fn((n, p).f(), |(i, j)| at(i, j)),
+            Layout::TransposedView => Array2::from_shape_fn((p, n), |(j, i)| at(i, j)),
+            Layout::StridedView => {
+                Array2::from_shape_fn((2 * n, p), |(i, j)| if i % 2 == 0 { at(i / 2, j) } else { junk(i, j) })
+            }
+            Layout::ReversedRows => Array2::from_shape_fn((n, p), |(i, j)| at(n - 1 - i, j)),
+        };
+        Backing { buf, layout }
+    }
+    fn view(&self) -> ArrayView2<'_, F> {
+        match self.layout {
+            Layout::RowMajor | Layout::ColMajor => self.buf.view(),
+            Layout::TransposedView => self.buf.t(),
+            Layout::StridedView => self.buf.slice(s![..;2, ..]),
+            Layout::ReversedRows => self.buf.slice(s![..;-1, ..]),
+        }
+    }
+}
+
+fn predict_records<F: Float, L: Label + Default, D: Data<Elem = F>>(
+    tree: &DecisionTree<F, L>,
+    x: &ArrayBase<D, Ix2>,
+) -> Array1<L> {
+    tree.predict(x)
+}
+
+fn predict_any<F: Float, L: Label + Default>(tree: &DecisionTree<F, L>, b: &Backing<F>) -> Array1<L> {
+    match b.layout {
+        Layout::RowMajor | Layout::ColMajor => predict_records(tree, &b.buf),
+        _ => predict_records(tree, &b.view()),
+    }
+}
+
 fn run_typed<F: Float, L: Label + Default>(
     c: &Case,
     obs: &mut Obs,
@@ -93,24 +138,47 @@ fn run_typed<F: Float, L: Label + Default>(
     let p = c.p();
     let xs = c.x();
     let qs = c.q();
-    let x = Array2::from_shape_fn((n, p), |(i, j)| to_f(xs[i][j]));
-    let q = Array2::from_shape_fn((qs.len(), p), |(i, j)| to_f(qs[i][j]));
     let k = 8u8;
     let table: Vec<L> = (0..k).map(label_of).collect();
     let id_of = |l: &L| -> i16 { table.iter().position(|t| t == l).map(|i| i as i16).unwrap_or(UNSEEN) };
     let y: Array1<L> = Array1::from_shape_fn(n, |i| label_of(c.y.get(i).copied().unwrap_or(0)));
-    let mut ds = DatasetBase::new(x.clone(), y);
-    if let Some(ix) = &c.weights {
-        let w = Array1::from_shape_fn(n, |i| WEIGHTS[(ix.get(i).copied().unwrap_or(1) as usize) % 4]);
-        ds = ds.with_weights(w);
-    }
+    let w: Option<Array1<f32>> = c
+        .weights
+        .as_ref()
+        .map(|ix| Array1::from_shape_fn(n, |i| WEIGHTS[(ix.get(i).copied().unwrap_or(1) as usize) % 4]));
     let params = DecisionTree::<F, L>::params()
         .split_quality(if c.entropy { SplitQuality::Entropy } else { SplitQuality::Gini })
         .max_depth(c.max_depth.map(|d| d as usize))
         .min_weight_split(c.min_weight_split)
         .min_weight_leaf(c.min_weight_leaf)
         .min_impurity_decrease(to_f(c.min_impurity_decrease));
-    let tree = match obs.call("fit", || params.fit(&ds))? {
+    // the same logical rows in the requested memory layout
+    let xb = Backing::new(&xs, n, p, c.layout, to_f);
+    let qb = Backing::new(&qs, qs.len(), p, c.qlayout, to_f);
+    let fitted = match c.layout {
+        // owned records and targets: `Dataset`
+        Layout::RowMajor | Layout::ColMajor => {
+            let mut ds = DatasetBase::new(xb.buf.clone(), y.clone());
+            let r = ds.records();
+            obs.class_if(!r.is_standard_layout() && r.as_slice_memory_order().is_some(), "records_contiguous_not_standard_layout");
+            if let Some(w) = &w {
+                ds = ds.with_weights(w.clone());
+            }
+            obs.call("fit", || params.fit(&ds))?
+        }
+        // borrowed records and targets: `DatasetView`
+        _ => {
+            let mut ds = DatasetBase::new(xb.view(), y.view());
+            let r = ds.records();
+            obs.class_if(!r.is_standard_layout() && r.as_slice_memory_order().is_some(), "records_contiguous_not_standard_layout");
+            obs.class_if(r.as_slice_memory_order().is_none(), "records_not_contiguous");
+            if let Some(w) = &w {
+                ds = ds.with_weights(w.clone());
+            }
+            obs.call("fit", || params.fit(&ds))?
+        }
+    };
+    let tree = match fitted {
         Ok(t) => t,
         Err(e) => {
             obs.fail("fit:error", format!("fit returned an error for valid hyper-parameters: {e}"));
@@ -121,10 +189,10 @@ fn run_typed<F: Float, L: Label + Default>(
     let (nodes, truncated) = obs.call("walk", || extract(tree.root_node(), &id_of))?;
     out.nodes = nodes;
     out.truncated = truncated;
-    let pt: Array1<L> = obs.call("predict", || tree.predict(&x))?;
+    let pt: Array1<L> = obs.call("predict", || predict_any(&tree, &xb))?;
     out.pred_train = pt.iter().map(&id_of).collect();
     if !qs.is_empty() {
-        let pq: Array1<L> = obs.call("predict", || tree.predict(&q))?;
+        let pq: Array1<L> = obs.call("predict", || predict_any(&tree, &qb))?;
         out.pred_query = pq.iter().map(&id_of).collect();
     }
     out.importance = obs
